@@ -32,6 +32,7 @@ type osState struct {
 	EverFull bool
 	Gone     bool
 	Proc     string
+	Held     int
 }
 
 func parseOS(raw json.RawMessage) osState {
@@ -42,7 +43,13 @@ func parseOS(raw json.RawMessage) osState {
 	if len(a) < 12 {
 		return osState{}
 	}
-	return osState{Listener: s(0), In: b(1), Out: b(2), EverFull: b(4), Gone: b(6), Proc: s(8)}
+	held := 0
+	if len(a) > 12 {
+		if f, ok := a[12].(float64); ok {
+			held = int(f)
+		}
+	}
+	return osState{Listener: s(0), In: b(1), Out: b(2), EverFull: b(4), Gone: b(6), Proc: s(8), Held: held}
 }
 
 type osAct struct {
@@ -90,6 +97,16 @@ func oneShellWalk(bin string, g *graph.G, walk []int, seed int64) (divs []osDiv,
 		return nil, nil, fmt.Errorf("no callback help")
 	}
 	var in, out, io *stream
+	type heldConn struct {
+		c     net.Conn
+		since time.Time
+	}
+	var held []heldConn
+	defer func() {
+		for _, h := range held {
+			h.c.Close()
+		}
+	}()
 	id := fmt.Sprintf("id%d", rng.Intn(1e6))
 	div := func(step int, aspect, format string, a ...any) {
 		divs = append(divs, osDiv{aspect, fmt.Sprintf(format, a...), step})
@@ -170,6 +187,44 @@ func oneShellWalk(bin string, g *graph.G, walk []int, seed int64) (divs []osDiv,
 			io = &stream{c, bufio.NewReader(c)}
 			if !expect(off, `Shell is ready`, 5*time.Second) {
 				div(i, "attach", "duplex stream not attached")
+				return
+			}
+		case "Hold":
+			// a client that has connected (TLS and all) before the listener closes and sends its request later
+			c, err := dialTLS(addr)
+			if err != nil && from.EverFull {
+				return // the implementation is ahead of the specification's silent step: nothing to hold
+			}
+			if err != nil {
+				div(i, "listener-closed-early", "a client cannot connect although no shell has been fully attached: %v", err)
+				return
+			}
+			held = append(held, heldConn{c, time.Now()})
+		case "HeldCloses":
+			if len(held) > 0 {
+				held[0].c.Close()
+				held = held[1:]
+			}
+		case "LateIO":
+			if len(held) == 0 {
+				return
+			}
+			h := held[0]
+			held = held[1:]
+			if time.Since(h.since) > 3500*time.Millisecond {
+				// the graceful shutdown closes connections that have sent nothing for 5 s (HeldCloses): too late to tell
+				h.c.Close()
+				return
+			}
+			off := mark()
+			fmt.Fprintf(h.c, "POST /io HTTP/1.1\r\nHost: x\r\nTransfer-Encoding: chunked\r\n\r\n")
+			io = &stream{h.c, bufio.NewReader(h.c)}
+			if !expect(off, `Shell is ready`, 5*time.Second) {
+				if ex, st := p.Exited(); ex {
+					div(i, "exits-early", "the program exited (status %d) when a connection accepted before the listener closed sent its /io request", st)
+				} else {
+					div(i, "late-shell", "a connection accepted before the listener closed sent /io after the first shell had gone and was not served")
+				}
 				return
 			}
 		case "Refused":
@@ -319,6 +374,10 @@ func oneShellWalk(bin string, g *graph.G, walk []int, seed int64) (divs []osDiv,
 		}
 	}
 	last := parseOS(g.Edges[walk[len(walk)-1]].ToState)
+	for _, h := range held { // connections still in flight would keep the graceful shutdown waiting (up to 5 s)
+		h.c.Close()
+	}
+	held = nil
 	if !exited && last.Gone && !last.In && !last.Out {
 		// the shell is gone: once the server has noticed (it polls at most 500 ms apart),
 		// the operator's next line ends the program, with success
@@ -385,7 +444,7 @@ func oneShellCampaign(r *ev.Run) {
 	}
 	r.Add("states", res.Distinct)
 	r.Add("transitions", len(g.Edges))
-	r.Append("tlc_invariants_checked", "OneShell: ClosedOnlyAfterFull OpenWhileNotFull NoHelpAfterGone ExitsWithSuccess StaysWhileShellAttached ShellUndisturbed; liveness ClosesAfterFull ExitsAtNextLine")
+	r.Append("tlc_invariants_checked", "OneShell: ClosedOnlyAfterFull OpenWhileNotFull NoHelpAfterGone ExitsWithSuccess StaysWhileShellAttached ShellUndisturbed LateShellServed; liveness ClosesAfterFull ExitsAtNextLine")
 	g.SetInitByNoIncoming()
 	rng := rand.New(rand.NewSource(r.Seed))
 	walks := g.CoveringWalks(rng, 14)
@@ -457,7 +516,7 @@ func oneShellCampaign(r *ev.Run) {
 	r.Add("distinct_nontrivial", len(distinct))
 	r.Add("traces_validated_against_impl", len(jobs))
 	r.Set("exhaustive", true)
-	r.Rule("walks covering every edge of OneShell.tla's TLC graph (arrival orders in/out, out/in, /io; refused and dropped half-attached attempts beforehand; probes of the listening socket; traffic both ways; each way the shell may end; operator lines) are replayed with the real binary started with -one-shell on a pty and real TLS clients: connect(2) must succeed while no shell is fully attached and be refused within 3 s after the ready notice and stay refused, traffic must keep flowing through the surviving shell, no callback help after the shell is gone, and the program must exit with status 0, a farewell and the terminal restored at the operator's next line; non-trivial = distinct walks that attach a stream")
+	r.Rule("walks covering every edge of OneShell.tla's TLC graph (arrival orders in/out, out/in, /io; refused and dropped half-attached attempts beforehand; probes of the listening socket; traffic both ways; each way the shell may end; operator lines; clients that connected before the listener closed and send their /io request after the first shell has gone, forming a further shell) are replayed with the real binary started with -one-shell on a pty and real TLS clients: connect(2) must succeed while no shell is fully attached and be refused within 3 s after the ready notice and stay refused, traffic must keep flowing through the surviving shell, no callback help after the shell is gone, and the program must exit with status 0, a farewell and the terminal restored at the operator's next line; non-trivial = distinct walks that attach a stream")
 	r.Assume("'shortly' is bounded by 3 s, 'at the next line' by 8 s; an implementation that is ahead of the specification's silent steps is accepted")
 }
 
